@@ -18,7 +18,7 @@ var actorCols = map[vocab.CollectionPath]string{vocab.Inbox: "Inbox", vocab.Outb
 var objectCols = map[vocab.CollectionPath]string{vocab.Likes: "Likes", vocab.Shares: "Shares", vocab.Replies: "Replies"}
 
 var ownerHosts = []string{"https://example.com", "https://social.example:8443", "http://a.b.example.org", "https://EXAMPLE.com", "https://xn--bcher-kva.example", "https://[2001:db8::1]", "https://[2001:db8::1]:8443", "https://10.0.0.1:8080"}
-var ownerPaths = []string{"", "/", "/users/jdoe", "/users/jdoe/", "/a/b/c", "/o/x%20y", "/~x", "/inbox", "/users/outbox/jdoe", "/users/jdoe/likes", "/UPPER/Case", "/a.b/c_d", "/a/b/c/d/e/f/g/h/i/j/k/l", "/users/j%C3%BCrgen", "/users/jdoe/followers/x", "/Inbox"}
+var ownerPaths = []string{"", "/", "/users/jdoe", "/users/jdoe/", "/a/b/c", "/o/x%20y", "/~x", "/inbox", "/users/outbox/jdoe", "/users/jdoe/likes", "/UPPER/Case", "/a.b/c_d", "/a/b/c/d/e/f/g/h/i/j/k/l", "/users/j%C3%BCrgen", "/users/jdoe/followers/x", "/Inbox", "/files/what%3Fnow", "/tag/%23go", "/rate/100%25", "/a%2Fb/c"}
 
 func isColName(s string) bool {
 	for _, c := range colNames {
